@@ -73,16 +73,36 @@ Definition es_tables : tables :=
     [mkE 0 10 2 0; mkE 0 10 3 2; mkE 0 10 2 1]
     (concat es_mds) (offsets_of 0 es_mds) [] [] [] [] [0] [] [] None.
 
-(* the row before edge_start keeps its fixed columns but loses its metadata "aaaa", and the
-   last row receives bytes of other rows: the result is not a permutation of the input rows *)
-Theorem sort_edge_start_metadata_refuted_proof :
+(* The PINNED code (before "fix: sort with edge_start > 0 keeps the metadata of the unsorted
+   prefix", /repo bd01493) restarted the copy-back at offset 0 whatever [start] was.  This is
+   that variant of tsk_table_sorter_sort_edges, kept only to record the defect; Model.sort_edges
+   is the repaired function (PartialProofs.sort_edges_start_spec). *)
+Definition sort_edges_pinned (Q : qsorts) (start : Z) (t : tables) : res tables :=
+  let edges := t_edges t in
+  let s := Z.to_nat start in
+  let rest := skipn s edges in
+  do spans <- spans_from (t_eoff t) start (length rest);
+  do recs <- mapM (fun rs : erow * (Z * Z) =>
+                     do tm <- get (map n_time (t_nodes t)) (e_parent (fst rs));
+                     Ok (mkES (fst rs) tm (fst (snd rs)) (snd (snd rs))))
+                  (combine rest spans);
+  let sorted := qs_edge Q recs in
+  do r <- copy_back (t_emd t) (map (fun e => (es_off e, es_len e)) sorted) 0 (t_emd t);
+  let off' := firstn s (t_eoff t) ++ snd r ++ skipn (s + length sorted) (t_eoff t) in
+  Ok (set_edges t (firstn s edges ++ map es_row sorted) (fst r) off').
+
+(* pinned: the row before edge_start loses its metadata "aaaa" and the last row receives bytes
+   of other rows; repaired: the prefix row is untouched and the two sorted rows keep theirs *)
+Theorem sort_edge_start_metadata_pinned_refuted_proof :
   check_refs es_tables = true /\ edges_wf es_tables es_mds /\
-  exists t', py_sort Qmerge 1 0 0 es_tables = Ok t' /\
-    edge_rows es_tables = Ok [(mkE 0 10 2 0, [97; 97; 97; 97]); (mkE 0 10 3 2, [99; 99]); (mkE 0 10 2 1, [98])] /\
-    edge_rows t' = Ok [(mkE 0 10 2 0, []); (mkE 0 10 2 1, [98]); (mkE 0 10 3 2, [99; 99; 97; 99; 99; 98])].
+  edge_rows es_tables = Ok [(mkE 0 10 2 0, [97; 97; 97; 97]); (mkE 0 10 3 2, [99; 99]); (mkE 0 10 2 1, [98])] /\
+  (exists t', sort_edges_pinned Qmerge 1 es_tables = Ok t' /\
+     edge_rows t' = Ok [(mkE 0 10 2 0, []); (mkE 0 10 2 1, [98]); (mkE 0 10 3 2, [99; 99; 97; 99; 99; 98])]) /\
+  (exists t', py_sort Qmerge 1 0 0 es_tables = Ok t' /\
+     edge_rows t' = Ok [(mkE 0 10 2 0, [97; 97; 97; 97]); (mkE 0 10 2 1, [98]); (mkE 0 10 3 2, [99; 99])]).
 Proof.
-  split; [reflexivity|]. split; [repeat split; reflexivity|].
-  eexists. split; [vm_compute; reflexivity|]. split; vm_compute; reflexivity.
+  split; [reflexivity|]. split; [repeat split; reflexivity|]. split; [vm_compute; reflexivity|].
+  split; eexists; (split; [vm_compute; reflexivity|]); vm_compute; reflexivity.
 Qed.
 
 (* ---------------------------------------------------------------------- *)
